@@ -164,6 +164,24 @@ def same_expr(node, expected: str) -> bool:
     return a == b
 
 
+def flat(node_or_src) -> str:
+    """canonical one-line text of code: ast.unparse formatting, lines stripped and joined by ';'"""
+    if isinstance(node_or_src, str):
+        import textwrap
+        node_or_src = ast.parse(textwrap.dedent(node_or_src))
+    if isinstance(node_or_src, list):
+        text = "\n".join(ast.unparse(n) for n in node_or_src)
+    else:
+        text = ast.unparse(node_or_src)
+    return ";".join(l.strip() for l in text.splitlines() if l.strip())
+
+
+def contains(node, fragment: str) -> bool:
+    """does the code of `node` contain the statements of `fragment` (consecutively, any indentation)?
+    Both sides are canonicalised through ast, so quotes, parentheses and spacing do not matter."""
+    return flat(fragment) in flat(node)
+
+
 def parent(node):
     return getattr(node, "_parent", None)
 
